@@ -280,6 +280,8 @@ def fn_rules(run):
             eb, et = ea[0]
             se2 = success_edge_of_call(f, eb, et)
             idx = [(bi, t) for bi, t in _calls(f, "Index::index") if deep(f, t["args"][0]) == "P6.args"]
+            zipped = [(bi, t) for bi, t in f.calls() if (t.get("callee") or "").endswith("Iterator::zip") and ".params" in deep(f, t["args"][0], 6) and "P6.args" in deep(f, t["args"][1], 6)]
+            idx = idx or zipped         # `params.iter().zip(args.iter())`: pairs by position without indexing
             ok = se2 is not None and bool(idx) and all(f.edge_dominates(se2[0], se2[1], b) for b, _ in idx) and "Vec::len(" in deep(f, et["args"][1], 5) and ".params" in deep(f, et["args"][1], 5)
             why = "arguments are indexed without the argument count having been checked against the parameter list"
         if ok:
@@ -294,6 +296,10 @@ def fn_rules(run):
                     # `for (i, param) in params.iter().enumerate()`: parameter = item .1, argument index = item .0 of the same item
                     e1 = re.search(r"^(Iterator::next\(Iterator::enumerate\(.*\.params\)\)\)@Some\.0)\.1\.name$", a[1])
                     same_index = bool(e1) and m2.group(1) == e1.group(1) + ".0"
+                if not same_index:
+                    # zipped: parameter = item .0 of the pair, argument = item .1 of the same pair
+                    z1 = re.search(r"^(Iterator::next\(Iterator::zip\(.*\.params\), slice::iter\(P6\.args\)\)\)@Some\.0)\.0\.name$", a[1])
+                    same_index = bool(z1) and a[2] == z1.group(1) + ".1.value"
                 ok = a[0] == "EvalContext::new_deepened(P6.eval_ctx)" and same_index
                 why = "parameters are not bound, by position, to the argument values in the fresh context (%s)" % a
     run.check(ok, RR, RR + "|call", f.loc(), "a user function call checks the depth, checks the argument count, binds parameter i to argument i in a fresh deeper context and evaluates the body there",
@@ -414,6 +420,32 @@ def nested_arg_text(run, R="ASM"):
             bad.append("the span is `%s`" % vals["span"][:100])
         if ("Walker::get_excerpt(%s.1, " % cand) not in vals["excerpt"]:
             bad.append("the text is `%s`" % vals["excerpt"][:100])
+    if n == 0:
+        # the record is built by a helper that is handed the candidate's walker and the argument kind
+        for bi, t in f.calls():
+            h = run.prog.fn(t.get("resolved") or "")
+            if h is None or not t.get("resolved_local"):
+                continue
+            ds = [deep(f, a, 9) for a in t["args"]]
+            kinds = [(i, re.fullmatch(r"Nested\{(.*)\.0\}", d)) for i, d in enumerate(ds)]
+            kinds = [(i, m.group(1)) for i, m in kinds if m]
+            if not kinds:
+                continue
+            ki, cand = kinds[0]
+            wi = [i for i, d in enumerate(ds) if d == cand + ".1"]
+            if not wi:
+                bad.append("the helper %s is not handed the candidate's own walker" % h.id)
+                n += 1
+                continue
+            W, K = "P%d" % (wi[0] + 1), "P%d" % (ki + 1)
+            for b2, s2, st2 in h.stmts():
+                if st2["k"] == "assign" and st2["rv"]["k"] == "agg" and str(st2["rv"].get("adt", "")).endswith("matcher::InstructionArgument"):
+                    flds = st2["rv"].get("fields") or []
+                    if {"kind", "span", "excerpt"} <= set(flds):
+                        n += 1
+                        v = {k_: deep(h, st2["rv"]["ops"][flds.index(k_)], 9) for k_ in ("kind", "span", "excerpt")}
+                        if v["kind"] != K or not v["span"].startswith("Walker::get_span(%s, " % W) or ("Walker::get_excerpt(%s, " % W) not in v["excerpt"]:
+                            bad.append("the helper %s builds `%s` / `%s` / `%s`" % (h.id, v["kind"][:30], v["span"][:50], v["excerpt"][:50]))
     run.check(n >= 1 and not bad, R, R + "|nested-arg|own-text", f.loc(),
               "a sub-rule argument is recorded with the span and text its own candidate's walker consumed (%d site(s))" % n,
               "match_with_nested_ruledef records a sub-rule candidate with text that is not what that candidate consumed (%s): an asm block substituting the argument would re-assemble another alternative's text" % ("; ".join(bad) or "no nested argument found"))
